@@ -106,6 +106,18 @@ check("C18", "model_checking",
       "equal futures; lenient reading of 'parameter object given at construction' (values at construction or at first assembly).",
       "explicit-state search over API-call histories with replay on fresh objects against a fresh-interpreter oracle")
 
+check("C14", "model_checking",
+      "Exhaustive enumeration of a typed term language: every term with <=2 (thorough: 3) operator nodes over a pool of real objects "
+      "(8 boundary operators incl. complex/sparse/zero, 4 blocked incl. generalized, 8 discrete operator classes, 4 grid functions in "
+      "primal and dual representation, 4 potential operators, 7 real/complex Python and numpy scalars) and the productions "
+      "+ - neg s* *s * @ / .T .H apply; a reference type checker decides well-typedness, a dense-matrix interpreter the value; "
+      "well-typed terms must evaluate (to_dense, matvec on all unit vectors, complex vector, matmat, coefficients) to the reference, "
+      "ill-typed ones must not produce numbers or exception objects. The pool has different spaces with equal dof counts so that "
+      "unchecked combinations produce numbers, not shape errors.",
+      "DESIGN.md 4/C14 and B.2",
+      "Trusted: typing rules B.2; transposes of composite/inverse/zero discrete operators (scipy's generic fallback, no rmatvec) are declined.",
+      "exhaustive enumeration of bounded-depth expression trees against a typed reference interpreter")
+
 ALL = ["C%02d" % i for i in range(1, 21)]
 
 
